@@ -556,6 +556,11 @@ func extractXMLDataField(parsedFieldBytes *TagValue, buffer []byte, dataLen int)
 		remBytes = buffer
 		return
 	}
+	if dataLen >= len(buffer)-endIndex-1 {
+		err = parseError{OrigError: "extractXMLDataField: XMLDataLen exceeds message length in " + string(buffer)}
+		remBytes = buffer
+		return
+	}
 	endIndex += dataLen + 1
 
 	err = parsedFieldBytes.parse(buffer[:endIndex+1])
